@@ -23,8 +23,9 @@ VarTypesStd == [ v |-> [type |-> <<"NN", "Boolean">>, hasDefault |-> FALSE, defa
                  w |-> [type |-> <<"Boolean">>, hasDefault |-> TRUE, default |-> Lit("bool", TRUE)],
                  n |-> [type |-> <<"Int">>, hasDefault |-> FALSE, default |-> NoLit],
                  m |-> [type |-> <<"NN", "Int">>, hasDefault |-> FALSE, default |-> NoLit],
-                 x |-> [type |-> <<"String">>, hasDefault |-> TRUE, default |-> Lit("str", "vd")] ]
-VarValsStd == [ v |-> {Bool(TRUE), Bool(FALSE)}, w |-> {Bool(FALSE)}, n |-> {Int(3), Null}, m |-> {Int(4)}, x |-> {Str("xs"), Null} ]
+                 x |-> [type |-> <<"String">>, hasDefault |-> TRUE, default |-> Lit("str", "vd")],
+                 y |-> [type |-> <<"Int">>, hasDefault |-> TRUE, default |-> Lit("int", 2)] ]
+VarValsStd == [ v |-> {Bool(TRUE), Bool(FALSE)}, w |-> {Bool(FALSE)}, n |-> {Int(3), Null}, m |-> {Int(4)}, x |-> {Str("xs"), Null}, y |-> {Int(5), Null} ]
 ArgOptsStd == [ f |-> {<<>>, <<ArgV("a", Lit("int", 1))>>, <<ArgV("b", Lit("str", "q")), ArgV("a", Lit("var", "n"))>>,
                        <<ArgV("b", Lit("var", "x"))>>, <<ArgV("b", Lit("null", 0))>>},
                 g |-> {<<ArgV("r", Lit("int", 2))>>, <<ArgV("r", Lit("var", "m"))>>} ]
@@ -42,6 +43,16 @@ AlphaFrag == AlphaOf([Query |-> {"o", "p"}, T |-> {"s", "o"}, P |-> {"s"}, A |->
 AlphaDirs == AlphaOf([Query |-> {"o", "s"}, T |-> {"s"}])
 AlphaOps == AlphaOf([Query |-> {"o", "s"}, Mutation |-> {"m1", "m3"}, T |-> {"s"}])
 AlphaFragQ == AlphaOf([Query |-> {"o", "s"}, T |-> {"s"}])
+\* fault-enumeration alphabets: every nullability layout between a fault and the root
+AlphaLayout == AlphaOf([Query |-> {"o", "on", "lo", "lnn", "nl", "nlnn", "ll", "sn", "ls", "e", "le"}, T |-> {"s", "sn"}])
+AlphaNested == AlphaOf([Query |-> {"o", "on", "lnn"}, T |-> {"sn", "on", "lo", "i"}])
+AlphaAbstractF == AlphaOf([Query |-> {"p", "np", "lp", "lu"}, P |-> {"s"}, A |-> {"an"}, U |-> {"__typename"}])
+AlphaPairs == AlphaOf([Query |-> {"o", "on", "s"}, T |-> {"s", "sn"}])
+AlphaMutF == AlphaOf([Mutation |-> {"m1", "m2", "m3", "m4"}, T |-> {"sn"}])
+AlphaArgsF == AlphaOf([Query |-> {"g", "o", "on"}, T |-> {"g", "s"}])
+\* a nullable variable with a default is allowed at a non-null argument; an explicit null then
+\* fails the argument coercion of that field at run time
+ArgOptsFail == [ f |-> {<<>>}, g |-> {<<ArgV("r", Lit("var", "y"))>>, <<ArgV("r", Lit("int", 2))>>} ]
 AlphaMut == AlphaOf([Mutation |-> {"m1", "m3", "ml"}, T |-> {"s", "o"}])
 
 \* ---- pick phase ------------------------------------------------------------------
@@ -105,5 +116,5 @@ Emit == phase = "done" =>
   LET b == BigStep(Ctx) IN
   PrintT(ToJson([kind |-> "case", nodes |-> nodes, op |-> pick.op,
                  given |-> PairsOf(pick.given), overlay |-> PairsOf(pick.overlay),
-                 data |-> b.data, errs |-> b.errs, calls |-> b.calls]))
+                 data |-> b.data, errs |-> b.errs, nulls |-> b.nulls, calls |-> b.calls]))
 =============================================================================
